@@ -82,8 +82,10 @@ class Alg:
                 r = prtpy.partition(algorithm=self.fn(), numbins=p["k"], items=items, outputtype=ot, **kw)
             else:
                 r = prtpy.pack(algorithm=self.fn(), binsize=p["B"], items=items, outputtype=ot, **kw)
-        except Exception as e:       # noqa
+        except Exception as e:       # noqa   (the call limit is a BaseException and passes through)
             r = e
+        except SystemExit as e:      # the library must not end the process
+            r = RuntimeError(f"SystemExit({e.code})")
         if mutation is not None:
             now = list(given.items()) if isinstance(given, dict) else given
             same = (np.array_equal(now, snap) and now.dtype == snap.dtype) if isinstance(snap, np.ndarray) else (now == snap and type(now) == type(snap))
